@@ -81,6 +81,11 @@ for p in props:
         how = (c.get("check_first_failing_input") or c.get("check_no_longer_checks") or [""])[0]
         how = how.replace("first failing input: - ", "failing input: ").replace("no longer checks: ", "no failing input; no longer checks: ")
         verdict = "VIOLATION" if m.get("caught") else "**missed**"
+        other = m.get("also_run_under") or {}
+        if other:
+            how = (how + " " if how else "") + "[under other checks: " + "; ".join(f"{k}: {v}" for k, v in other.items() if k != "note") + "]"
+            if not m.get("caught") and any(str(v).startswith("VIOLATION") for k, v in other.items() if k != "note"):
+                verdict = "missed by this check, VIOLATION under " + ",".join(k for k, v in other.items() if k != "note" and str(v).startswith("VIOLATION"))
         out.append(f"| {d} | {cell(m.get('title'), 160)} | {cell(m.get('needs_to_manifest'), 220)} | {cell(', '.join(m.get('files_touched') or []), 80)} | {verdict} | {cell(how, 200)} |")
 out.append("\n" + rd("design/TAIL.md").rstrip() + "\n")
 out.append("\n---------------------------------------------------------------------------\n\n" + rd("design/ROUND0.md").rstrip() + "\n")
